@@ -95,6 +95,23 @@ def run_case(case, rng):
     all_obs = list(emitted) + ["NEVER-EMITTED"] + (["GHOST-OBS"] if sp.meta.get("ghost_obs") else [])
     bm = BeliefMDP(pomdp)
     avp = AlphaVectorPolicy(pomdp, np.zeros((1, len(S))))
+    # a SECOND belief MDP alive, over a sibling POMDP with the same labels and another observation kernel (each row's
+    # probabilities rotated among its observations); it is asked about every belief / action just before the judged one
+    bm_other = None
+    if rng.random() < 0.35:
+        import copy as _copy
+        sp_o = _copy.deepcopy(sp)
+        for k_, row_ in list(sp_o.O.items()):
+            if len(row_) >= 2:
+                ps_ = [p_ for _, p_ in row_]
+                sp_o.O[k_] = [(o_, p_) for (o_, _), p_ in zip(row_, ps_[1:] + ps_[:1])]
+        try:
+            bm_other = BeliefMDP(Bd.build_pomdp(sp_o, explicit=explicit))
+            case.count("belief_mdps_alive_side_by_side")
+        except BaseException as e_:
+            if type(e_).__name__ == "CaseTimeout" or isinstance(e_, (KeyboardInterrupt, SystemExit)):
+                raise
+            bm_other = None
 
     for b in beliefs:
         bd = DictDistribution(dict(b))
@@ -148,6 +165,13 @@ def run_case(case, rng):
                             case.check(ok, "next_agentstate-is-not-the-posterior-belief", lambda: f"{nag!r}", **facts)
             # ---- belief MDP
             bel = Belief(tuple(S), tuple(bvec))
+            if bm_other is not None:
+                try:
+                    bm_other.next_state_dist(bel, a)
+                    bm_other.reward(bel, a, None)
+                except BaseException as e_:
+                    if type(e_).__name__ == "CaseTimeout" or isinstance(e_, (KeyboardInterrupt, SystemExit)):
+                        raise
             nsd = case.call("BeliefMDP.next_state_dist", bm.next_state_dist, bel, a, facts=facts)
             case.count("beliefmdp_transitions_checked")
             if nsd is not case.FAIL:
